@@ -528,6 +528,79 @@ func scase(r *rng.R, i int, o *out.W) {
 		"go": ps, "panic": msg, "curved_piece_segments": ncurved}})
 }
 
+// acase: SplitAt on ONE elliptical arc with exact geometry (gen.Arc: rational centre, radii, rotation, end points) at 1..4
+// positions; the returned arc records are judged in Coq against the ellipse (orientation predicates in the plane of its unit
+// circle): same ellipse and direction, chained from start to end, cut points on the ellipse advancing along the arc, the
+// large-arc flag of every piece consistent with its end points, and Go's own lengths.
+func acase(r *rng.R, i int, o *out.W) {
+	sx, sy := float64(r.Range(-40, 40))/4, float64(r.Range(-40, 40))/4
+	a := gen.Arc(r, sx, sy, r.Intn(3))
+	p := &canvas.Path{}
+	p.MoveTo(a.Sx, a.Sy)
+	p.ArcTo(a.Rx, a.Ry, a.RotDeg, a.Large, a.Sweep, a.Ex, a.Ey)
+	d := p.Data()
+	desc := map[string]interface{}{"kind": "A", "path": p.String(), "go": nil}
+	if len(d) != 12 || d[4] != canvas.ArcToCmd {
+		return // the builder changed the arc (zero length / radii corrected): not this family's subject
+	}
+	var L float64
+	var ts []float64
+	var pieces []*canvas.Path
+	msg := safe(func() {
+		L = p.Length()
+		n := r.Range(1, 4)
+		seen := map[float64]bool{}
+		for k := 0; k < n; k++ {
+			t := L * float64(r.Range(1, 31)) / 32
+			if !seen[t] {
+				seen[t] = true
+				ts = append(ts, t)
+			}
+		}
+		sort.Float64s(ts)
+		pieces = p.SplitAt(append([]float64(nil), ts...)...)
+	})
+	desc["cuts"] = ts
+	desc["length"] = L
+	fam := "A:arc"
+	if a.Rx == a.Ry {
+		fam = "A:circle"
+	} else if a.SnN != 0 && a.CsN != 0 {
+		fam = "A:rotated"
+	}
+	if a.Large {
+		fam += ":large"
+	}
+	if msg != "" {
+		desc["panic"] = msg
+		term := fmt.Sprintf("CA (mkA %s 1 1 1 0 %s %s false false 0 nil nil true)", pt(0, 0), pt(0, 0), pt(0, 0))
+		o.Emit(out.Case{I: i, Fam: fam, Coq: term, Desc: desc})
+		return
+	}
+	var ps, goS []string
+	for _, q := range pieces {
+		qd := q.Data()
+		goS = append(goS, q.String())
+		if len(qd) != 12 || qd[4] != canvas.ArcToCmd {
+			// not a single arc record: reported as "not the same ellipse"
+			ps = append(ps, fmt.Sprintf("(mkAP false false false %s %s %s)", pt(0, 0), pt(0, 0), cq.F(0)))
+			continue
+		}
+		same := qd[5] == d[5] && qd[6] == d[6] && qd[7] == d[7]
+		large, sweep := qd[8] == 1 || qd[8] == 3, qd[8] == 2 || qd[8] == 3
+		ps = append(ps, fmt.Sprintf("(mkAP %s %s %s %s %s %s)", cq.Bool(same), cq.Bool(large), cq.Bool(sweep), pt(qd[1], qd[2]), pt(qd[9], qd[10]), cq.F(q.Length())))
+	}
+	desc["go"] = goS
+	q := func(n, dn int64) string { return fmt.Sprintf("(%d # %d)", n, dn) }
+	cs, sn := q(a.CsN, a.H), q(a.SnN, a.H)
+	if a.CsN < 0 {
+		cs = fmt.Sprintf("((-%d) # %d)", -a.CsN, a.H)
+	}
+	term := fmt.Sprintf("CA (mkA %s %s %s %s %s %s %s %s %s %s %s %s false)", pt(a.Cx, a.Cy), cq.F(a.Rx), cq.F(a.Ry), cs, sn, pt(a.Sx, a.Sy), pt(a.Ex, a.Ey),
+		cq.Bool(a.Large), cq.Bool(a.Sweep), cq.F(L), cq.Floats(ts), cq.List(ps))
+	o.Emit(out.Case{I: i, Fam: fam, Coq: term, Desc: desc})
+}
+
 func main() {
 	seed := flag.Uint64("seed", 1, "")
 	n := flag.Int("n", 100, "")
@@ -541,7 +614,9 @@ func main() {
 			continue
 		}
 		r := root.Fork(uint64(i))
-		if i%2 == 0 {
+		if i%8 == 7 {
+			acase(r, i, o)
+		} else if i%2 == 0 {
 			rcase(r, i, o)
 		} else {
 			scase(r, i, o)
